@@ -58,6 +58,13 @@ def rule_models(tier):
            [dict(type='assignment', target=X, rhs=('+', ('*', NUM(2), ID(A)), NUM(3)), freq=0.5),
             dict(type='assignment', target=Y, rhs=('+', ID(A), ('*', NUM(2), ID(B))), freq='repeated')],
            {'p': 1.0}, ['fixed_point'], x0=dict(base_x0, X=1))
+        # rules that read the cell volume: a parameter target and a species target (volume reads 1 where no volume is in play)
+        if rx in ('rx1', 'rx_rule_rate', 'rx_exhaust'):
+            mk('volume_rules_%s' % rx, rx,
+               [dict(type='assignment', target='p', rhs=('+', ('*', NUM(0.5), ('vol',)), ('*', NUM(0.25), ID(B))), freq='repeated'),
+                dict(type='assignment', target=X, rhs=('+', ('*', NUM(4), ID('p')), ID(A)), freq='repeated'),
+                dict(type='assignment', target=Y, rhs=('+', ('*', NUM(2), ('vol',)), ID(X)), freq='repeated')],
+               {'p': 1.0, 'q': 2.0}, ['volume'])
         # (c): scheduled rules at every interior grid time and at the start
         for tau in (['start', 0.25, 0.5, 0.75] if tier == 'thorough' or rx in ('rx1', 'rx_rule_species') else ['start', 0.5]):
             mk('sched_%s_%s' % (tau, rx), rx,
@@ -224,7 +231,7 @@ def run_config(c, cfg):
         letters = [m.letters[ch].name for m, ch in zip(menus, choices)]
         cs = case(ref['us'], rows, dict(ref_rows=ref['rows'], letters=letters))
         # mapping-independent oracles first
-        bad = fixed_point_violation(sp, rows, times)
+        bad = fixed_point_violation(sp, rows, times) if 'volume' not in tags else None      # (the re-application assumes volume 1)
         if bad:
             c.violation(pre + 'fixed-point', bad, cs)
         sv = step_violation(sp, rows, tags, dt)
